@@ -117,13 +117,24 @@ def run(ctx):
     # is invisible to one call per process)
     sq_in = {SETDIR + "/n1.dat": L.gen_content(rng, "random", 23), SETDIR + "/sub/n2.dat": L.gen_content(rng, "random", 9),
              "/elsewhere/n1.dat": L.gen_content(rng, "random", 17), "/elsewhere/sub/n2.dat": L.gen_content(rng, "random", 9)}
-    steps = [("/elsewhere", "first.par2", 4, 2, 1, ["n1.dat"]),
+    # two files with the same relative name, length and first 16 KiB (hence the same PAR2 file id) but different tails
+    head_ = L.gen_content(rng, "random", 16384)
+    sq_in["/elsewhere/big.bin"] = head_ + L.gen_content(rng, "random", 300)
+    sq_in[SETDIR + "/big.bin"] = head_ + L.gen_content(rng, "random", 300)
+    steps = [("/elsewhere", "big1.par2", 4096, 1, 1, ["big.bin"]), (SETDIR, "big2.par2", 4096, 1, 1, ["big.bin"]),
+             ("/elsewhere", "first.par2", 4, 2, 1, ["n1.dat"]),
              (SETDIR, "out.par2", 8, 3, 2, ["n1.dat", "sub/n2.dat"]),
              ("/elsewhere/sub", "../third.par2", 4, 1, 1, ["n2.dat", "../n1.dat"])]
+    # an input that is a symbolic link: what is protected is the NAME given and the content found there
+    blob_ = L.gen_content(rng, "random", 29)
+    sq_in["/elsewhere/blob-0001.bin"] = blob_
+    sq_real = dict(sq_in); sq_real["/elsewhere/link.txt"] = b"VHSYMLINK:blob-0001.bin"
+    sq_in["/elsewhere/link.txt"] = blob_
+    steps.append(("/elsewhere", "linked.par2", 8, 1, 1, ["link.txt", "n1.dat"]))
     toks = ["p2", "createseq", "real", str(len(steps))]
     for cwd_, par_, S_, np_, g_, fl_ in steps:
         toks += [L.hx(cwd_), L.hx(par_), str(S_), str(np_), str(g_), str(len(fl_))] + [L.hx(f_) for f_ in fl_]
-    sq_line = " ".join(toks + L.fs_tokens(sq_in, dirs=["/elsewhere/sub", SETDIR + "/sub"]))
+    sq_line = " ".join(toks + L.fs_tokens(sq_real, dirs=["/elsewhere/sub", SETDIR + "/sub"]))
     # the same three Creates, each by itself with absolute paths (implementation and model)
     abs_lines = [L.line_create("p2", "mem", posixpath.normpath(posixpath.join(cwd_, par_)), S_, np_, g_,
                                [posixpath.normpath(posixpath.join(cwd_, f_)) for f_ in fl_], sq_in) for cwd_, par_, S_, np_, g_, fl_ in steps]
@@ -137,7 +148,7 @@ def run(ctx):
     psq = L.parse_result(sq_res)
     ctx.count("sequence|" + L.hx(L.md5(sq_line.encode())), True)
     dist["create_sequences_in_one_process"] = 1
-    if psq["res"] != "ok|ok|ok" or psq["changed"] != want:
+    if psq["res"] != "|".join(["ok"] * len(steps)) or psq["changed"] != want:
         diff = sorted(set(k_ for k_ in set(psq["changed"]) | set(want) if psq["changed"].get(k_) != want.get(k_)))
         report("Creates run one after the other in one process, each from its own current directory with relative paths, do not give what each gives by itself: results %s, differing files %s" % (psq["res"], diff[:6]),
                {"lines": [sq_line], "mode": "real", "impl": sq_res[:1500], "expected_files": sorted(want), "class": {"kind": "sequence"}})
